@@ -204,3 +204,32 @@ theorem PoolInv_exclusive {p : Pool} (hi : PoolInv p) :
     exact hnd.2.2 b hf b (List.mem_map.2 ⟨(u, b), hu, rfl⟩) rfl
 
 end DV
+
+namespace DV
+
+/-- with the capacity check every buffer handed out holds what was asked for - whatever values
+    MessageBufferLength takes in between, whatever is in the pool -/
+theorem CapPool_step_ok (p : CapPool) (e : CapEv) : (p.step true e).2 = true := by
+  cases e with
+  | setLen n => rfl
+  | use min =>
+    simp only [CapPool.step, CapPool.acquire]
+    by_cases h : min > p.len
+    · simp [h]
+    · have hle : min ≤ p.len := Nat.le_of_not_gt h
+      simp only [h, ↓reduceIte]
+      cases hf : p.free with
+      | nil => simp [hle]
+      | cons c rest =>
+        by_cases hc : c < min
+        · simp [hc, hle]
+        · simp [hc, Nat.le_of_not_gt hc]
+
+theorem CapPool_run_ok : ∀ (es : List CapEv) (p : CapPool), (CapPool.run true p es).2 = true
+  | [], _ => rfl
+  | e :: es, p => by
+    simp only [CapPool.run]
+    rw [CapPool_step_ok p e, CapPool_run_ok es]
+    rfl
+
+end DV
